@@ -72,7 +72,7 @@ func addSubstProcs(r rng, p *sdl.Program) {
 				if pr.Class == "inst" && at == sdl.CbEarly {
 					continue
 				}
-				pr.Rules = append(pr.Rules, &sdl.Rule{Target: tgt.ID, At: at, Action: action, Sub: s})
+				pr.Rules = append(pr.Rules, &sdl.Rule{Target: tgt.ID, At: at, Action: action, Sub: s, Fresh: action == "substitute" && r.p(0.15)})
 			}
 		}
 		p.Procs = append(p.Procs, pr)
